@@ -219,6 +219,7 @@ def two_separator_graph(rng):
 
 
 def run_shard(ctx):
+    gg.ALLOW_ODD = True  # node names that are not Python identifiers are node names like any other
     install()
     mon_dsep.install()
     rng = ctx.rng
